@@ -463,11 +463,81 @@ def random_histories(g, nep, steps):
         ep.dropall()
 
 
+def shift_episodes(g, nep):
+    """mixed flags + slot shifting: x (cow on, >= 4 chunks) is cloned, the clone un-shares ONE middle chunk (its flag becomes
+    false while its neighbours stay true), then an operation removes / inserts a whole chunk BEFORE it so that keys,
+    containers and flags must all shift together; `safe` looks at the pointer graph right after the shift"""
+    r = g.r
+    for _ in range(nep):
+        ep = A(g)
+        n = r.choice([4, 5, 6])
+        base = r.choice([0, 1, 7, 65536 - n - 1, 65536 - n])
+        keys = [base + i for i in range(n)]
+        x = g.fresh("s")
+        ep.mk(x, keys, 1)
+        y = g.fresh("s")
+        g.emit("clone %s %s" % (y, x))
+        ep.define(y, keys)
+        mid = r.choice(keys[1:-1])
+        g.emit("add %s %d" % (y, mid * 65536 + r.choice([0, 5, 65535])))          # y owns chunk `mid` privately now
+        ep.check()
+        victim = r.choice([k for k in keys if k < mid])                              # a chunk before the private one
+        lo, hi = victim * 65536, (victim + 1) * 65536
+        how = r.choice(["iandnot", "iandnot_full", "iand", "ixor", "remr", "remr_multi", "flip", "insert"])
+        g.count("alias:shift:" + how)
+        z = g.fresh("s")
+        if how in ("iandnot", "iandnot_full"):
+            g.emit("new %s" % z)
+            g.emit("addr %s %d %d" % (z, lo, hi))
+            if how == "iandnot_full" and r.random() < 0.5:
+                g.emit("opt %s" % z)
+            ep.define(z, [victim])
+            g.emit("iandnot %s %s" % (y, z))
+        elif how == "iand":
+            g.emit("new %s" % z)
+            for k in keys:
+                if k != victim:
+                    g.emit("addr %s %d %d" % (z, k * 65536, (k + 1) * 65536))
+            ep.define(z, [k for k in keys if k != victim])
+            g.emit("iand %s %s" % (y, z))
+        elif how == "ixor":
+            g.emit("clone %s %s" % (z, x))
+            ep.define(z, keys)
+            g.emit("remr %s %d %d" % (z, hi, (keys[-1] + 1) * 65536))                  # z = chunks <= victim of x
+            if victim > keys[0]:
+                g.emit("remr %s %d %d" % (z, keys[0] * 65536, lo))
+            g.emit("ixor %s %s" % (y, z))                                               # cancels chunk `victim` of y
+        elif how == "remr":
+            g.emit("remr %s %d %d" % (y, lo, hi))
+        elif how == "remr_multi":
+            g.emit("remr %s %d %d" % (y, keys[0] * 65536, mid * 65536))
+        elif how == "flip":
+            g.emit("of %s %d" % (z, lo + 3))
+            ep.define(z, [victim])
+            g.emit("iand %s %s" % (y, y))                                               # no-op, keeps flags
+            g.emit("clone %s %s" % (z, y))
+            ep.define(z, keys)
+            g.emit("remr %s %d %d" % (z, lo, hi))
+        else:   # insert a new chunk before the private one
+            newk = base - 1 if base > 0 else keys[-1] + 1
+            g.emit("add %s %d" % (y, newk * 65536 + 9))
+        ep.check()
+        # now write into every chunk of y and of x: any stale flag shows as interference
+        for k in keys:
+            g.emit("add %s %d" % (y, k * 65536 + r.choice([1, 77, 65534])))
+        ep.check()
+        for k in keys:
+            g.emit("rem %s %d" % (x, k * 65536 + r.choice([2, 78, 65533])))
+        ep.check()
+        ep.dropall()
+
+
 @suite("alias")
 def _alias(g, scale):
     grid_binary(g, min(1.0, 0.28 * scale))
     grid_unary(g, min(1.0, 0.5 * scale))
     random_histories(g, max(1, int(6 * scale)), 22)
+    shift_episodes(g, max(2, int(16 * scale)))
 
 
 @suite("alias_grid")
